@@ -14,7 +14,7 @@ EXPLANATION = (
     'the branch where on-connect returned true, and after a true on-connect every normal path to the exit passes exactly one '
     'on-release; R2 return values: None without options, False in the three documented handlers, the result only when it is '
     'true, the object when on-connect returned false; R3 every waiting loop has terminate() in its condition or is handed '
-    'the terminate callback; R4 sense(): UnsupportedTargetError is re-raised only for a single target, the first target '
+    'the terminate callback; R4 sense(): UnsupportedTargetError is re-raised only for a single target, each technology branch reaches the driver method of that technology (directly or through a local function), the first target '
     'found in the given order is returned from inside the in-order loop, every normal miss path passes device.mute(); R5 '
     'the captured target is cleared before any driver call of sense()/listen() and written nowhere else, exchange() selects '
     'the direction from the class of the captured target and returns None without one.  Behaviour against live counterparts '
